@@ -136,6 +136,8 @@ struct Enc {
     ss: (u8, u8),
     wide: bool,
     src: u8,
+    /// declared bit depth; 0 = the storage's usual one (8 for u8, 10 for u16)
+    depth: u8,
 }
 fn enc_sizes(tier: Tier) -> Vec<usize> {
     match tier {
@@ -156,9 +158,21 @@ fn enc_cases(tier: Tier) -> Vec<Enc> {
                 for ssy in 0..=2u8 {
                     for wide in [false, true] {
                         for src in 0..4u8 {
-                            v.push(Enc { w, h, ss: (ssx, ssy), wide, src });
+                            v.push(Enc { w, h, ss: (ssx, ssy), wide, src, depth: 0 });
                         }
                     }
+                }
+            }
+        }
+    }
+    // every declared bit depth 8..=16 with BOTH storage types: the constructor accepts u8 storage
+    // labelled with more than 8 bits (samples are then truncated, which is defined behaviour), so the
+    // quantiser runs with code ranges wider than the storage type
+    for (w, h, ss) in [(2usize, 2usize, (0u8, 0u8)), (4, 2, (1, 1))] {
+        for wide in [false, true] {
+            for src in 0..4u8 {
+                for depth in 8..=16u8 {
+                    v.push(Enc { w, h, ss, wide, src, depth });
                 }
             }
         }
@@ -166,14 +180,14 @@ fn enc_cases(tier: Tier) -> Vec<Enc> {
     v
 }
 fn enc_json(e: &Enc) -> Value {
-    json!({"kind":"c07enc","w":e.w,"h":e.h,"ss":[e.ss.0,e.ss.1],"u16":e.wide,"src":e.src})
+    json!({"kind":"c07enc","w":e.w,"h":e.h,"ss":[e.ss.0,e.ss.1],"u16":e.wide,"src":e.src,"depth":e.depth})
 }
 fn encode_case(acc: &mut Acc, idx: u64, e: &Enc) {
     acc.states += 1;
     acc.transitions += 1;
     let data: Vec<[f32; 3]> = (0..e.w * e.h).map(|i| [0.1 + 0.8 * (i % 7) as f32 / 7.0, 0.5, 0.9 - 0.8 * (i % 5) as f32 / 5.0]).collect();
     let cfg = YuvConfig {
-        bit_depth: if e.wide { 10 } else { 8 },
+        bit_depth: if e.depth != 0 { e.depth } else if e.wide { 10 } else { 8 },
         subsampling_x: e.ss.0,
         subsampling_y: e.ss.1,
         full_range: false,
@@ -528,7 +542,7 @@ pub fn miri_box() -> Acc {
             idx += 1;
         }
     }
-    for e in enc_cases(Tier::Quick).into_iter().filter(|e| e.w <= 4 && e.h <= 4 && e.src != 1) {
+    for e in enc_cases(Tier::Quick).into_iter().filter(|e| e.w <= 4 && e.h <= 4 && (e.src != 1 || e.depth != 0)) {
         encode_case(&mut acc, idx, &e);
         idx += 1;
     }
@@ -569,6 +583,7 @@ pub fn replay(case: &Value) -> (bool, String) {
                 ss: (case["ss"][0].as_u64().unwrap() as u8, case["ss"][1].as_u64().unwrap() as u8),
                 wide: case["u16"].as_bool().unwrap(),
                 src: case["src"].as_u64().unwrap() as u8,
+                depth: case["depth"].as_u64().unwrap_or(0) as u8,
             },
         ),
         "c07curve" => {
